@@ -19,4 +19,4 @@ summary=$(tail -1 $SCR/check.out | tr '"' "'")
 echo "{\"pid\":\"$PID\",\"k\":$K,\"applies\":true,\"demo_clean_exit\":$demo_clean,\"demo_mut_exit\":$demo_mut,\"tests\":\"$tests\",\"check_exit\":$rc,\"violation_lines\":$viol,\"no_failing_input\":$nofail,\"tier\":\"$TIER\",\"check_summary\":\"$summary\"}"
 git -C /repo worktree remove --force $WT
 # restore generated tables from /repo (the check may have regenerated them from the mutated tree)
-PYTHONPATH=/repo /venv/bin/python -B -m harness.common.tables >/dev/null 2>&1
+PYTHONPATH=/repo DELPH_IN_PYDELPHIN_VERIF=1 PYTHONHASHSEED=0 /venv/bin/python -B -m harness.common.tables --pid $PID >/dev/null 2>&1
